@@ -24,6 +24,7 @@ const LOAD_FAULTS: &[&str] = &[
   "error",
   "checksum-error",
   "redirect-to-other",
+  "redirect-via-hop",
   "redirect-to-self",
   "external",
   "different-final-specifier",
@@ -50,6 +51,14 @@ struct Fixture {
   cached_only_empty: bool,
 }
 
+/// every fixture also serves `hop.ts` (an honest redirect to `other.ts`, so a
+/// single injected redirect yields a two-hop chain) and `again.ts`, the root of
+/// an optional second build on the same graph that asks for everything again
+fn install_common(l: &ScriptedLoader, again: &str) {
+  l.add("https://x/hop.ts", Entry::Redirect(url("https://x/other.ts")));
+  l.add_text("https://x/again.ts", again);
+}
+
 fn fixture(i: usize) -> Fixture {
   match i {
     0 => Fixture {
@@ -58,8 +67,10 @@ fn fixture(i: usize) -> Fixture {
         l.add_text("https://x/root.ts", "import \"./a.ts\";\nimport \"./r.ts\";\nimport data from \"./data.json\" with { type: \"json\" };\nimport txt from \"./t.ts\" with { type: \"text\" };\nimport \"./t.ts\";\nawait import(\"./c.ts\");\n");
         l.add_text("https://x/a.ts", "import \"./b.ts\";\nexport const a = 1;\n");
         l.add_text("https://x/b.ts", "export const b = 1;\n");
-        l.add_text("https://x/c.ts", "import \"./b.ts\";\nexport const c = 1;\n");
+        // the dynamic branch asks again for what the static part has settled
+        l.add_text("https://x/c.ts", "import \"./b.ts\";\nimport \"./a.ts\";\nimport \"./r.ts\";\nimport \"./t.ts\";\nexport const c = 1;\n");
         l.add("https://x/r.ts", Entry::Redirect(url("https://x/b.ts")));
+        install_common(l, "import \"./a.ts\";\nimport \"./r.ts\";\nimport \"./b.ts\";\nimport data from \"./data.json\" with { type: \"json\" };\nimport \"./t.ts\";\nimport \"./c.ts\";\n");
         l.add_text("https://x/data.json", "{\"k\": 1}");
         l.add_text("https://x/t.ts", "export const t = 1;\n");
         l.add_text("https://x/other.ts", "export const other = 1;\n");
@@ -71,8 +82,10 @@ fn fixture(i: usize) -> Fixture {
     1 | 2 => Fixture {
       name: if i == 1 { "registry" } else { "registry-embedded-module-graph" },
       install: Box::new(move |l| {
-        l.add_text("https://x/root.ts", "import \"jsr:@s/a\";\nimport \"https://jsr.io/@s/b/1.0.0/mod.ts\";\nimport \"./p.ts\";\n");
+        l.add_text("https://x/root.ts", "import \"jsr:@s/a\";\nimport \"https://jsr.io/@s/b/1.0.0/mod.ts\";\nimport \"./p.ts\";\nawait import(\"./late.ts\");\n");
         l.add_text("https://x/p.ts", "export const p = 1;\n");
+        l.add_text("https://x/late.ts", "import \"jsr:@s/a\";\nimport \"jsr:@s/b@^1\";\nimport \"./p.ts\";\n");
+        install_common(l, "import \"jsr:@s/a\";\nimport \"jsr:@s/a@1/\";\nimport \"https://jsr.io/@s/b/1.0.0/mod.ts\";\nimport \"https://jsr.io/@s/a/1.0.0/sub.ts\";\nimport \"./p.ts\";\n");
         l.add_text("https://x/other.ts", "export const other = 1;\n");
         let mut a = RegPackage {
           name: "@s/a".into(),
@@ -101,6 +114,7 @@ fn fixture(i: usize) -> Fixture {
       install: Box::new(|l| {
         l.add_text("https://x/root.ts", "import \"npm:x@1\";\nimport \"npm:y@2/sub\";\nimport \"node:fs\";\nimport \"./q.ts\";\nawait import(\"npm:z@3\");\n");
         l.add_text("https://x/q.ts", "import \"npm:x@1\";\nexport const q = 1;\n");
+        install_common(l, "import \"npm:x@1\";\nimport \"npm:y@2/sub\";\nimport \"npm:z@3\";\nimport \"./q.ts\";\n");
         l.add_text("https://x/other.ts", "export const other = 1;\n");
       }),
       roots: vec![url("https://x/root.ts")],
@@ -129,8 +143,9 @@ fn build_fixture(
   ch: &Ch,
   inject: bool,
   npm_mode: usize,
+  second: bool,
 ) -> (ModuleGraph, Vec<Injected>, Vec<String>, Result<(), DriveError>) {
-  build_fixture_sched(fx, ch, inject, npm_mode, SchedMode::Immediate)
+  build_fixture_sched(fx, ch, inject, npm_mode, SchedMode::Immediate, second)
 }
 
 fn build_fixture_sched(
@@ -139,6 +154,7 @@ fn build_fixture_sched(
   inject: bool,
   npm_mode: usize,
   mode: SchedMode,
+  second: bool,
 ) -> (ModuleGraph, Vec<Injected>, Vec<String>, Result<(), DriveError>) {
   let sched = Sched::new(mode);
   let loader = ScriptedLoader::new(sched);
@@ -218,6 +234,9 @@ fn build_fixture_sched(
         "redirect-to-other" => Ok(Some(LoadResponse::Redirect {
           specifier: url("https://x/other.ts"),
         })),
+        "redirect-via-hop" => Ok(Some(LoadResponse::Redirect {
+          specifier: url("https://x/hop.ts"),
+        })),
         "redirect-to-self" => Ok(Some(LoadResponse::Redirect {
           specifier: spec.clone(),
         })),
@@ -245,20 +264,19 @@ fn build_fixture_sched(
     log: Default::default(),
   };
   let mut graph = ModuleGraph::new(GraphKind::All);
-  let r = build_graph(
-    &mut graph,
-    fx.roots.clone(),
-    &loader,
-    BuildCfg {
-      unstable_text: true,
-      unstable_bytes: true,
-      npm: if fx.with_npm { Some(&npm) } else { None },
-      // completion order is a free (shape) choice here: faults are what is bounded
-      sched_cost: false,
-      ..Default::default()
-    },
-    ch,
-  );
+  let cfg = || BuildCfg {
+    unstable_text: true,
+    unstable_bytes: true,
+    npm: if fx.with_npm { Some(&npm) } else { None },
+    // completion order is a free (shape) choice here: faults are what is bounded
+    sched_cost: false,
+    ..Default::default()
+  };
+  let mut r = build_graph(&mut graph, fx.roots.clone(), &loader, cfg(), ch);
+  if second && r.is_ok() {
+    // a later build on the same graph that asks again for what is settled
+    r = build_graph(&mut graph, vec![url("https://x/again.ts")], &loader, cfg(), ch);
+  }
   let log = loader
     .log
     .borrow()
@@ -279,14 +297,15 @@ fn body_sched(fixtures: Vec<usize>, mode: SchedMode) -> impl Fn(&Ch) -> Run + Sy
     let fi = fixtures[ch.shape("fixture", fixtures.len())];
     let fx = fixture(fi);
     let npm_mode = if fx.with_npm { ch.choose("npm_answer", 3) } else { 0 };
+    let second = ch.flag("second_build_on_the_same_graph");
     // fault-free reference (same npm answer)
-    let (g0, _, _, r0) = build_fixture(&fx, ch, false, npm_mode);
-    let (g, injected, log, r) = build_fixture_sched(&fx, ch, true, npm_mode, mode);
+    let (g0, _, _, r0) = build_fixture(&fx, ch, false, npm_mode, second);
+    let (g, injected, log, r) = build_fixture_sched(&fx, ch, true, npm_mode, mode, second);
     run.evals = 1;
     let o0 = obs(&g0);
     let o = obs(&g);
     let case = |extra: Value| {
-      json!({"fixture": fx.name, "npm_answer": (["ok", "request-error", "dep-graph-error"][npm_mode]),
+      json!({"fixture": fx.name, "second_build_with_root_again.ts": second, "npm_answer": (["ok", "request-error", "dep-graph-error"][npm_mode]),
         "injected": injected.iter().map(|i| json!({"call": i.call_index, "kind": i.kind, "specifier": i.specifier.as_str(), "cache_setting": i.cache_setting, "answer": i.fault})).collect::<Vec<_>>(),
         "loader_calls": log, "detail": extra})
     };
@@ -316,7 +335,9 @@ fn body_sched(fixtures: Vec<usize>, mode: SchedMode) -> impl Fn(&Ch) -> Run + Sy
       run.violate("internal-error-in-serialisation", "serialised graph contains [INTERNAL ERROR]", case(json!({})));
     }
     // (4) each terminal fault becomes an error entry for the affected specifier, with a referrer
-    let roots: BTreeSet<&ModuleSpecifier> = fx.roots.iter().collect();
+    let again = url("https://x/again.ts");
+    let all_roots: Vec<ModuleSpecifier> = fx.roots.iter().cloned().chain(second.then(|| again.clone())).collect();
+    let roots: BTreeSet<&ModuleSpecifier> = all_roots.iter().collect();
     let honest_later = |inj: &Injected| {
       // a later honest answer for the same specifier (checksum retry) heals the fault
       log.iter().enumerate().any(|(i, l)| i > inj.call_index && l.contains(&format!(" {} ", inj.specifier)) && !l.ends_with("not-found") && !l.contains("-> error") && !l.contains("checksum-error"))
@@ -347,13 +368,17 @@ fn body_sched(fixtures: Vec<usize>, mode: SchedMode) -> impl Fn(&Ch) -> Run + Sy
       if injected.iter().filter(|j| j.specifier == inj.specifier).count() > 1 {
         continue;
       }
+      // ... and no other answer delivered a module *as* this specifier
+      if inj.specifier.as_str() == "https://jsr.io/@s/a/1.0.0/mod.ts" && injected.iter().any(|j| j.fault == "final-specifier-inside-registry") {
+        continue;
+      }
       match g.try_get(&inj.specifier) {
         Err(e) => {
           // a root, or what a root was redirected to
           let is_root = roots.contains(&inj.specifier)
-            || fx.roots.iter().any(|r| g.resolve(r) == &inj.specifier)
+            || all_roots.iter().any(|r| g.resolve(r) == &inj.specifier)
             || injected.iter().any(|j| {
-              roots.contains(&j.specifier) && matches!(j.fault, "redirect-to-other") && inj.specifier.as_str() == "https://x/other.ts"
+              roots.contains(&j.specifier) && matches!(j.fault, "redirect-to-other" | "redirect-via-hop") && matches!(inj.specifier.as_str(), "https://x/other.ts" | "https://x/hop.ts")
             });
           if !is_root {
             match e.maybe_referrer() {
@@ -380,6 +405,17 @@ fn body_sched(fixtures: Vec<usize>, mode: SchedMode) -> impl Fn(&Ch) -> Run + Sy
           }
         }
         Ok(Some(m)) => {
+          // the specifier itself holds an error entry, but an earlier honest
+          // answer recorded it as a redirect source and lookups follow the
+          // redirect: C03 asks for the entry (there is one); that lookups and
+          // the walk disagree about it is C14's business (part fault-histories)
+          let raw_error = o["serialized"]["modules"].as_array().is_some_and(|a| {
+            a.iter().any(|e| e["specifier"].as_str() == Some(inj.specifier.as_str()) && e.get("error").is_some())
+          });
+          if raw_error && g.redirects.contains_key(&inj.specifier) {
+            run.count("error_entry_shadowed_by_earlier_redirect", 1);
+            continue;
+          }
           // asset loads (ensure_cached) may legitimately mark the entry external
           if m.external().is_none() {
             run.violate(
@@ -390,6 +426,14 @@ fn body_sched(fixtures: Vec<usize>, mode: SchedMode) -> impl Fn(&Ch) -> Run + Sy
           }
         }
         Ok(None) => {
+          // same shadowing as above, inside a redirect cycle
+          let raw_error = o["serialized"]["modules"].as_array().is_some_and(|a| {
+            a.iter().any(|e| e["specifier"].as_str() == Some(inj.specifier.as_str()) && e.get("error").is_some())
+          });
+          if raw_error && g.redirects.contains_key(&inj.specifier) {
+            run.count("error_entry_shadowed_by_earlier_redirect", 1);
+            continue;
+          }
           // absent is acceptable only if nothing imports it any more
           let imported = g.modules().any(|m| {
             m.dependencies().values().any(|d| {
@@ -419,8 +463,9 @@ fn body_sched(fixtures: Vec<usize>, mode: SchedMode) -> impl Fn(&Ch) -> Run + Sy
         }
       }
       // a redirect fault also touches the place it points to
-      if matches!(inj.fault, "redirect-to-other") {
+      if matches!(inj.fault, "redirect-to-other" | "redirect-via-hop") {
         tainted.insert("https://x/other.ts".into());
+        tainted.insert("https://x/hop.ts".into());
       }
       if inj.fault == "final-specifier-inside-registry" {
         tainted.insert("https://jsr.io/@s/a/1.0.0/mod.ts".into());
@@ -433,7 +478,7 @@ fn body_sched(fixtures: Vec<usize>, mode: SchedMode) -> impl Fn(&Ch) -> Run + Sy
         || tainted_pkgs.iter().any(|p| s.contains(&format!("jsr.io/{p}/")) || s.starts_with(&format!("jsr:{p}")))
     };
     let mut reach: BTreeSet<ModuleSpecifier> = BTreeSet::new();
-    let mut work: Vec<ModuleSpecifier> = fx.roots.clone();
+    let mut work: Vec<ModuleSpecifier> = all_roots.clone();
     while let Some(s) = work.pop() {
       if is_tainted(s.as_str()) || !reach.insert(s.clone()) {
         continue;
@@ -450,8 +495,14 @@ fn body_sched(fixtures: Vec<usize>, mode: SchedMode) -> impl Fn(&Ch) -> Run + Sy
         }
       }
     }
-    if npm_mode == 0 || true {
+    {
       for s in &reach {
+        // whether an npm specifier whose dependency graph fails is an error
+        // entry or a module depends on whether it is first reached dynamically
+        // or statically; with a second build that is decided by the history
+        if npm_mode == 2 && second && s.scheme() == "npm" {
+          continue;
+        }
         // error entries are compared without the referrer: which of several
         // importers an error names may legitimately change when one of them
         // is itself hit by the fault
@@ -471,7 +522,7 @@ fn body_sched(fixtures: Vec<usize>, mode: SchedMode) -> impl Fn(&Ch) -> Run + Sy
         }
       }
     }
-    run.state_key = hash_of(&(fi, npm_mode, format!("{injected:?}"), &log));
+    run.state_key = hash_of(&(fi, npm_mode, second, format!("{injected:?}"), &log));
     run.nontrivial = !injected.is_empty();
     run.outcome_key = hash_json(&json!([o["slots"].as_object().map(|m| m.iter().map(|(k, v)| (k.clone(), v.get("error_kind").cloned().unwrap_or(v["kind"].clone()))).collect::<serde_json::Map<_, _>>()), o["redirects"]]));
     run.count("faults_injected", injected.len() as u64);
